@@ -728,7 +728,7 @@ theorem hardLines_eq_split (cells : List VaxisModel.Model.Wrap.Cell) :
 
 open VaxisModel.Model.Wrap in
 theorem textHardLoop_eq_split : ∀ (cs cur : List VaxisModel.Model.Wrap.Cell), cs ≠ [] →
-    textHardLoop cur cs = VaxisModel.Spec.WrapDraw.splitNlAux cur cs := by
+    textHardLoop cur cs = VaxisModel.Spec.WrapDraw.splitNlAux cur.reverse cs := by
   intro cs
   induction cs with
   | nil => intro cur h; exact absurd rfl h
@@ -741,13 +741,13 @@ theorem textHardLoop_eq_split : ∀ (cs cur : List VaxisModel.Model.Wrap.Cell), 
       · simp [textHardLoop, VaxisModel.Spec.WrapDraw.splitNlAux, hc]
     | cons d ds =>
       have e1 : textHardLoop cur (c :: d :: ds) =
-          if c.nl then cur :: textHardLoop [] (d :: ds) else textHardLoop (cur ++ [c]) (d :: ds) := by
+          if c.nl then cur.reverse :: textHardLoop [] (d :: ds) else textHardLoop (c :: cur) (d :: ds) := by
         rw [textHardLoop]
-      have e2 : VaxisModel.Spec.WrapDraw.splitNlAux cur (c :: d :: ds) =
-          if c.nl then cur :: VaxisModel.Spec.WrapDraw.splitNlAux [] (d :: ds)
-          else VaxisModel.Spec.WrapDraw.splitNlAux (cur ++ [c]) (d :: ds) := by
+      have e2 : VaxisModel.Spec.WrapDraw.splitNlAux cur.reverse (c :: d :: ds) =
+          if c.nl then cur.reverse :: VaxisModel.Spec.WrapDraw.splitNlAux [] (d :: ds)
+          else VaxisModel.Spec.WrapDraw.splitNlAux (cur.reverse ++ [c]) (d :: ds) := by
         rw [VaxisModel.Spec.WrapDraw.splitNlAux]; simp
-      rw [e1, e2, ih [] (by simp), ih (cur ++ [c]) (by simp)]
+      rw [e1, e2, ih [] (by simp), ih (c :: cur) (by simp), List.reverse_cons, List.reverse_nil]
 
 open VaxisModel.Model.Wrap in
 /-- `text.hardLines` (the lines of a `Text` that is not soft-wrapped) returns exactly the split of the
@@ -757,7 +757,7 @@ theorem textHardLines_eq_split (cells : List VaxisModel.Model.Wrap.Cell) :
   unfold textHardLines VaxisModel.Spec.WrapDraw.splitNl
   cases cells with
   | nil => simp [textHardLoop]
-  | cons c cs => simp only [List.isEmpty_cons, Bool.false_eq_true, ↓reduceIte]; exact textHardLoop_eq_split _ _ (by simp)
+  | cons c cs => simp only [List.isEmpty_cons, Bool.false_eq_true, ↓reduceIte]; exact textHardLoop_eq_split _ [] (by simp)
 
 /-! ### the surface is wide enough for every line shown (up to `Max.Width`) -/
 
